@@ -11,9 +11,10 @@
     [pre_lt] the node).  [1 <= T < 2^31] is Go's own range (int32 level mask,
     height <= 30); [Height T = h] names the height; nothing else is bounded. *)
 From Coq Require Import ZArith List Bool Lia Sorting.Sorted.
-From Low Require Import Lib.MachInt Lib.Bits Lib.Lex Lib.Bytes Spec.Bmtree Spec.IndexSpec
+From Low Require Import Lib.MachInt Lib.Bits Lib.Lex Lib.Bytes Spec.Bmtree Spec.IndexSpec Spec.ContractSpec
   Model.BmtreePath Model.BmtreeIndex
-  Proofs.BmtreeRankSpec Proofs.ShiftMultiProofs Proofs.BmtreeIndexProofs Proofs.BmtreeContractProofs.
+  Proofs.BmtreeRankSpec Proofs.ShiftMultiProofs Proofs.BmtreeIndexProofs Proofs.BmtreeContractProofs
+  Proofs.BmtreeDomainProofs.
 Import ListNotations.
 Open Scope Z_scope.
 
@@ -165,6 +166,55 @@ Theorem C03_checker_strict : forall T q (dbg : bool), 1 <= T < 2 ^ 31 ->
 Proof. intros T q dbg HT Hq. exact (checker_strict T q HT Hq dbg). Qed.
 Print Assumptions C03_checker_strict.
 
+(** * widening: the contracts of the debug build on RAW arguments (any int32 level mask, any uint64 word) *)
+
+(** the naive decoder of Spec/ContractSpec.v recognises exactly the path words *)
+Theorem C03_decode_word : forall h w q, (h <= 32)%nat -> 0 <= w ->
+  decode_word h w = Some q <-> (length q <= h)%nat /\ w = enc h q.
+Proof. exact decode_word_iff. Qed.
+Print Assumptions C03_decode_word.
+
+(** the contracts of PathToIndexLoose hold exactly on: a level mask in [1, 2^31) together with a
+    path word of its tree — or a word of the gap (empty mask half under non-zero search bits < 2^30) *)
+Theorem C03_contracts_domain : forall T w, - 2 ^ 31 <= T < 2 ^ 31 -> 0 <= w < 2 ^ 64 ->
+  contracts_PathToIndexLoose T w = true <->
+  valid_mask T = true /\ (decode_word (Z.to_nat (Z.log2 T)) w <> None \/ gap_word w = true).
+Proof. exact contracts_loose_domain. Qed.
+Print Assumptions C03_contracts_domain.
+
+(** PathToIndex adds the level contract *)
+Theorem C03_contracts_strict : forall T w,
+  contracts_PathToIndex T w = contracts_PathToIndexLoose T w && bitmapMustHaveLevel T (PathLen w).
+Proof. exact contracts_strict_split. Qed.
+Print Assumptions C03_contracts_strict.
+
+(** the raw-argument operations of the correspondence run: on EVERY raw input the expectation
+    (value inside the domain, panic outside, nothing claimed on the gap) accepts the model of the
+    debug build *)
+Theorem C03_raw_loose : forall T w (eqb : Z * Z -> Z * Z -> bool), - 2 ^ 31 <= T < 2 ^ 31 -> 0 <= w < 2 ^ 64 ->
+  (forall a, eqb a a = true) ->
+  expect_accepts eqb (raw_loose_expect T w) (PathToIndexLoose_debug T w) = true.
+Proof. intros T w eqb HT Hw. exact (raw_loose_accepts T w HT Hw eqb). Qed.
+Print Assumptions C03_raw_loose.
+
+Theorem C03_raw_strict : forall T w, - 2 ^ 31 <= T < 2 ^ 31 -> 0 <= w < 2 ^ 64 ->
+  expect_accepts Z.eqb (raw_strict_expect T w) (PathToIndex_debug T w) = true.
+Proof. exact raw_strict_accepts. Qed.
+Print Assumptions C03_raw_strict.
+
+(** the INTENDED contract — "a contract fires on every word that is not a path word of the tree" — is
+    false of the code as it is (pathCheck returns before its "path bits must be shorter than mask" test
+    when the mask half is 0).  Witness replayed on the implementation (-tags debug):
+    PathToIndexLoose(0xf, 0x800000000) = (15, 1), no panic, and 15 is not an index of a 15-node tree.
+    Reported to the lead as a finding; [gap_word] is exactly this family. *)
+Theorem C03_contracts_exact_refuted :
+  exists T w, - 2 ^ 31 <= T < 2 ^ 31 /\ 0 <= w < 2 ^ 64 /\
+    contracts_PathToIndexLoose T w = true /\
+    (forall q, (length q <= Z.to_nat (Height T))%nat -> w <> enc (Z.to_nat (Height T)) q) /\
+    PathToIndexLoose_debug T w = Some (15, 1) /\ ~ (15 < T).
+Proof. exact contracts_gap_witness. Qed.
+Print Assumptions C03_contracts_exact_refuted.
+
 (** * non-vacuity *)
 
 (** a partial tree of height 6 (levels 1, 3, 4, 6 stored: T = 0b1011010 = 90), general branch *)
@@ -211,3 +261,17 @@ Example C03_shiftMulti_nonvacuous :
   0 <= 6 < 64 /\ 0 <= 26 < 2 ^ (6 + 1) /\ shiftMulti 90 26 6 = Some 35 /\
   sumbits (Z.to_nat (6 + 1)) 90 26 6 = 35.
 Proof. repeat apply conj; try (vm_compute; reflexivity); lia. Qed.
+
+(** raw arguments: a valid pair, a word of a taller tree, a negative level mask, a hole in the mask, the gap *)
+Example C03_raw_nonvacuous :
+  decode_word 6 (enc 6 [true; false; true; true]) = Some [true; false; true; true] /\
+  raw_loose_expect 90 (enc 6 [true; false; true; true]) = ExpValue (63, 1) /\
+  PathToIndexLoose_debug 90 (enc 6 [true; false; true; true]) = Some (63, 1) /\
+  raw_loose_expect 90 (enc 7 [true; false; true; true]) = ExpPanic /\
+  PathToIndexLoose_debug 90 (enc 7 [true; false; true; true]) = None /\
+  raw_loose_expect (-90) (enc 6 [true]) = ExpPanic /\ PathToIndexLoose_debug (-90) (enc 6 [true]) = None /\
+  raw_loose_expect 90 0x280000002c = ExpPanic /\ PathToIndexLoose_debug 90 0x280000002c = None /\
+  raw_strict_expect 90 (enc 6 [true; false]) = ExpPanic /\ PathToIndex_debug 90 (enc 6 [true; false]) = None /\
+  raw_loose_expect 0xf 0x800000000 = ExpAny /\ gap_word 0x800000000 = true /\
+  contracts_PathToIndexLoose 0xf 0x800000000 = true.
+Proof. repeat apply conj; vm_compute; reflexivity. Qed.
